@@ -1,7 +1,202 @@
-import HopModel.Model.Sanse
+/-
+C12 — Kravatte-SANSE AEAD is correct, tamper-evident and sensitive to the whole key.
+
+The theorems are about the SANSE *mode* (`Model/Sanse.lean`, the transcription of
+`kravatte/sanse.go`) over an **arbitrary deck function** `dk` — nothing about Kravatte or Keccak is
+used except that a squeeze of `n` bytes returns `n` bytes (`SqueezeLen`, proved for the Kravatte
+model in `C12_kravatte_squeeze_len`).  They hold for every key state, history, associated data,
+plaintext and session length.  That the Go code computes the bytes of this model instantiated with
+Kravatte over Keccak-p[1600,6] and the key block `k ‖ 1 ‖ 0*` is the correspondence run
+(validation, anchored to the XKCP vector files), not a theorem.  Unforgeability is not claimed:
+`C12_open_iff_seal` is the structural half of it.
+-/
+import HopModel.Proofs.Sanse
+import HopModel.Proofs.Kravatte
 import HopModel.Generated.Consts
 namespace Sanse
 
+/-! ### obligations on the constants extracted from the source -/
 example : Generated.kravatte_TagSize = tagSize := rfl
+example : Generated.kravatte_widthBytes = Kravatte.widthBytes := rfl
+example : Generated.kravatte_widthBits = Kravatte.widthBits := rfl
+example : Generated.kravatte_FlagInit = Kravatte.flagInit := rfl
+example : Generated.kravatte_FlagLastPart = Kravatte.flagLastPart := rfl
+example : Generated.kravatte_FlagShort = Kravatte.flagShort := rfl
+example : Generated.transport_TagLen = tagSize := rfl
+
+variable {D : Type} (dk : Deck D)
+
+/-! ### round trip -/
+
+/-- **C12.** Opening what `Seal` produced, from the same state (same key, same history, same
+parity) and with the same associated data, returns the plaintext and leaves the opener in exactly
+the sealer's new state. -/
+theorem C12_open_seal (h : SqueezeLen dk) (s : St D) (ad p : List UInt8) :
+    openMsg dk s ad (sealMsg dk s ad p).2 = ((sealMsg dk s ad p).1, some p) := by
+  have hc := wrap_ct_length dk h s ad p
+  have ht := wrap_tag_length dk h s ad p
+  unfold openMsg sealMsg
+  simp only [List.length_append, ht]
+  rw [if_neg (by omega)]
+  have hn : (wrap dk s ad p).2.1.length + tagSize - tagSize = (wrap dk s ad p).2.1.length := by omega
+  simp only [hn, List.take_left', List.drop_left']
+  exact unwrap_wrap dk h s ad p
+
+/-- the sealed message is the ciphertext (as long as the plaintext) followed by a 32-byte tag -/
+theorem C12_seal_length (h : SqueezeLen dk) (s : St D) (ad p : List UInt8) :
+    (sealMsg dk s ad p).2.length = p.length + 32 := by
+  simp [sealMsg, wrap_ct_length dk h, wrap_tag_length dk h, tagSize]
+
+/-! ### acceptance is exact -/
+
+/-- **C12 (tamper evidence, logical form).** `Open` accepts `ct` and returns `p` **iff** `ct` is
+exactly the sealing of `p` under the same key state, associated data and history.  Any other byte
+string — one bit of ciphertext, tag or (through the history) associated data changed — is accepted
+only if it happens to be the sealing of some other plaintext, which is the unforgeability
+assumption on the deck function and not claimed here. -/
+theorem C12_open_iff_seal (h : SqueezeLen dk) (s : St D) (ad ct p : List UInt8) :
+    (openMsg dk s ad ct).2 = some p ↔ ct = (sealMsg dk s ad p).2 := by
+  constructor
+  · intro ho
+    unfold openMsg at ho
+    by_cases hl : ct.length < tagSize
+    · simp [hl] at ho
+    · simp only [hl, if_false] at ho
+      obtain ⟨h1, h2⟩ := wrap_of_unwrap dk h s ad _ _ p ho
+      unfold sealMsg
+      simp only [h1, h2, List.take_append_drop]
+  · intro hc
+    rw [hc, C12_open_seal dk h]
+
+/-- the whole 32-byte tag is compared: an accepted message ends with the full tag that sealing
+the returned plaintext produces -/
+theorem C12_tag_full_width (h : SqueezeLen dk) (s : St D) (ad ct p : List UInt8)
+    (ho : (openMsg dk s ad ct).2 = some p) :
+    ct.drop (ct.length - 32) = (wrap dk s ad p).2.2 ∧ (wrap dk s ad p).2.2.length = 32 := by
+  have hc := (C12_open_iff_seal dk h s ad ct p).mp ho
+  have hcl := wrap_ct_length dk h s ad p
+  have htl := wrap_tag_length dk h s ad p
+  refine ⟨?_, htl⟩
+  rw [hc]
+  unfold sealMsg
+  simp only [List.length_append, htl, tagSize]
+  rw [List.drop_left' (by omega)]
+
+/-- anything that is not a sealing under this state and associated data is rejected -/
+theorem C12_tamper_rejected (h : SqueezeLen dk) (s : St D) (ad ct : List UInt8)
+    (hne : ∀ p, ct ≠ (sealMsg dk s ad p).2) : (openMsg dk s ad ct).2 = none := by
+  cases ho : (openMsg dk s ad ct).2 with
+  | none => rfl
+  | some p => exact absurd ((C12_open_iff_seal dk h s ad ct p).mp ho) (hne p)
+
+/-- with the assumption spelled out (`Unforgeable`: for this state and associated data, a byte
+string differing from the sealed message is not a sealing of anything — what an adversary without
+the key cannot achieve), every modification of the sealed message is rejected -/
+def Unforgeable (s : St D) (ad c : List UInt8) : Prop :=
+  ∀ c' p', c' ≠ c → c' ≠ (sealMsg dk s ad p').2
+
+theorem C12_tamper (h : SqueezeLen dk) (s : St D) (ad p c' : List UInt8)
+    (hid : Unforgeable dk s ad (sealMsg dk s ad p).2) (hne : c' ≠ (sealMsg dk s ad p).2) :
+    (openMsg dk s ad c').2 = none :=
+  C12_tamper_rejected dk h s ad c' (fun p' => hid c' p' hne)
+
+/-- too short to hold a tag: refused, state untouched -/
+theorem C12_open_short (s : St D) (ad ct : List UInt8) (hl : ct.length < 32) :
+    openMsg dk s ad ct = (s, none) := by
+  simp [openMsg, tagSize, hl]
+
+/-! ### sessions -/
+
+/-- a two-way session: both ends start in `sa`, `sb`; every message `(dir, ad, p)` is sealed by
+one end (`dir = true`: the first) and opened by the other -/
+def exchange (sa sb : St D) : List (Bool × List UInt8 × List UInt8) → St D × St D × List (Option (List UInt8))
+  | [] => (sa, sb, [])
+  | (dir, ad, p) :: rest =>
+    if dir then
+      let r := sealMsg dk sa ad p
+      let o := openMsg dk sb ad r.2
+      let t := exchange r.1 o.1 rest
+      (t.1, t.2.1, o.2 :: t.2.2)
+    else
+      let r := sealMsg dk sb ad p
+      let o := openMsg dk sa ad r.2
+      let t := exchange o.1 r.1 rest
+      (t.1, t.2.1, o.2 :: t.2.2)
+
+/-- **C12.** Sessions of any length, in both directions: two objects made from the same key stay
+in the same state and every message is opened to its plaintext.  By induction over the message
+list. -/
+theorem C12_session_sync (h : SqueezeLen dk) (msgs : List (Bool × List UInt8 × List UInt8)) (s : St D) :
+    (exchange dk s s msgs).1 = (exchange dk s s msgs).2.1 ∧
+    (exchange dk s s msgs).2.2 = msgs.map (fun m => some m.2.2) := by
+  induction msgs generalizing s with
+  | nil => simp [exchange]
+  | cons m rest ih =>
+    obtain ⟨dir, ad, p⟩ := m
+    cases dir <;>
+    · simp only [exchange, C12_open_seal dk h, List.map_cons, if_true, Bool.false_eq_true, if_false]
+      exact ⟨(ih _).1, by rw [(ih _).2]⟩
+
+/-- the parity bit alternates with every message, accepted or not -/
+theorem C12_parity (s : St D) (ad x : List UInt8) :
+    (sealMsg dk s ad x).1.e = !s.e ∧ (32 ≤ x.length → (openMsg dk s ad x).1.e = !s.e) := by
+  constructor
+  · unfold sealMsg wrap; simp only; split <;> rfl
+  · intro hl
+    unfold openMsg
+    rw [if_neg (by simp only [tagSize]; omega)]
+    unfold unwrap; simp only; split <;> rfl
+
+/-! ### the key block -/
+
+open Kravatte in
+/-- **C12 (every key byte reaches the mask).** The key block `k ‖ 1 ‖ 0*` of the mask derivation
+determines the key: two different keys shorter than 200 bytes — also keys that differ only in
+length, or only in their last `len mod 8` bytes — give different blocks. -/
+theorem C12_key_pad_injective (k₁ k₂ : List UInt8) (h₁ : k₁.length < 200) (h₂ : k₂.length < 200)
+    (h : pad k₁ = pad k₂) : k₁ = k₂ := pad_injective k₁ k₂ h₁ h₂ h
+
+open Kravatte in
+theorem C12_key_pad_length (k : List UInt8) (h : k.length < 200) : (pad k).length = 200 :=
+  pad_length k h
+
+open Kravatte in
+/-- hence, with a block-to-mask map that is injective (a permutation applied to the lane packing
+of the 200 bytes — `hmask` is that hypothesis, visible), different keys have different masks -/
+theorem C12_key_sensitivity (f : Keccak.State → Keccak.State)
+    (hmask : ∀ a b : List UInt8, a.length = 200 → b.length = 200 →
+      f (Keccak.ofBytes a) = f (Keccak.ofBytes b) → a = b)
+    (k₁ k₂ : List UInt8) (h₁ : k₁.length < 200) (h₂ : k₂.length < 200)
+    (h : maskOf f k₁ = maskOf f k₂) : k₁ = k₂ :=
+  pad_injective k₁ k₂ h₁ h₂ (hmask _ _ (pad_length k₁ h₁) (pad_length k₂ h₂) h)
+
+/-! ### the Kravatte instance meets the hypothesis -/
+
+/-- for every permutation `f`, the Kravatte model satisfies `SqueezeLen`: after absorbing a string
+(the last `Kra` has `FlagLastPart`) `Vatte` succeeds and writes exactly the requested bytes -/
+theorem C12_kravatte_squeeze_len (f : Keccak.State → Keccak.State) : SqueezeLen (kravatteDeck f) :=
+  Kravatte.kravatteDeck_squeezeLen f
+
+/-! ### non-vacuity -/
+
+/-- a toy deck function: the state is the list of absorbed bytes, squeezing repeats a digest -/
+private def toy : Deck (List UInt8) where
+  absorb d x l k := UInt8.ofNat k :: l :: x ++ d
+  squeeze d n _ := List.replicate n (d.foldl (· + ·) 7)
+
+private theorem toy_len : SqueezeLen toy := by
+  intro d x l k n lp; simp [toy]
+
+private def s0 : St (List UInt8) := { d := [], e := false }
+
+example : (sealMsg toy s0 [9] [1, 2, 3]).2.length = 35 := C12_seal_length toy toy_len ..
+example : (openMsg toy s0 [9] (sealMsg toy s0 [9] [1, 2, 3]).2).2 = some [1, 2, 3] := by
+  rw [C12_open_seal toy toy_len]
+/-- a flipped ciphertext bit is really rejected by the toy instance (the `none` branch is inhabited) -/
+example : (openMsg toy s0 [9] ((sealMsg toy s0 [9] [1, 2, 3]).2.set 0 0xff)).2 = none := by decide
+example : (openMsg toy s0 [8] (sealMsg toy s0 [9] [1, 2, 3]).2).2 = none := by decide
+example : (exchange toy s0 s0 [(true, [1], [2, 3]), (false, [], [4]), (true, [5], [])]).2.2 =
+    [some [2, 3], some [4], some []] := (C12_session_sync toy toy_len _ s0).2
+example : Kravatte.pad [1, 2, 3] ≠ Kravatte.pad [1, 2, 3, 0] := by decide
 
 end Sanse
